@@ -330,9 +330,23 @@ func pushDataToHash(b []byte) bitcoin.Hash20 {
 // checkContracts returns true if the tx contains a Tokenized "contract wide" op return.
 // This includes contract formations and instrument creations so can be used to index contract and instrument
 // information.
+// deserializeAction reads the action from a locking script. The envelope parser indexes into
+// pushes that a malformed script can leave empty, and any peer can send such a script, so a panic
+// in there only means the script is not an action.
+func deserializeAction(script bitcoin.Script, isTest bool) (action actions.Action, err error) {
+	defer func() {
+		if r := recover(); r != nil {
+			action = nil
+			err = fmt.Errorf("malformed envelope : %v", r)
+		}
+	}()
+
+	return protocol.Deserialize(script, isTest)
+}
+
 func checkContracts(ctx context.Context, tx *wire.MsgTx, isTest bool) bool {
 	for _, output := range tx.TxOut {
-		action, err := protocol.Deserialize(output.LockingScript, isTest)
+		action, err := deserializeAction(output.LockingScript, isTest)
 		if err != nil {
 			continue
 		}
